@@ -17,6 +17,11 @@ def kv (ws : List String) (k : String) : Option String :=
 def stepLine (u : Unit) (line : String) : Unit × String :=
   let ws := words line
   let vec := fun k => (kv ws k).bind pv
+  -- block-level packed storage: `packblk r=<rat> k=<order> x=<k*k entries>`, `unpackblk r=<rat> k=<order> x=<k(k+1)/2 entries>`
+  match ws.head?, (kv ws "r").bind parseRat, (kv ws "k").bind (·.toNat?), vec "x" with
+  | some "packblk", some r, some k, some x => (u, sv (packBlk r k x))
+  | some "unpackblk", some r, some k, some x => (u, sv (unpackBlk r k x))
+  | _, _, _, _ =>
   match ws.head?, (kv ws "dims").bind pdims with
   | some "sdot", some d => match vec "x", vec "y" with
     | some x, some y => (u, showRat (sdot d x y))
